@@ -517,6 +517,23 @@ theorem includes_missing :
     (run cfg 100 (initial 0 [0] []) {}).isSome = true ∧ (run cfg 100 (initial 0 [1] []) {}).isSome = false := by
   decide
 
+/-- the main file is read even when it was `-include`d before and says `#pragma once` (clang ignores
+    the pragma in the main file), so its directives are reported again -/
+theorem includes_main_pragma_once :
+    let cfg : Cfg := { files := [⟨0, .once, [.incl false 1]⟩, ⟨0, .none, []⟩], fs := [(0, 1, 1)],
+                       quoteDirs := [], iDirs := [], sysDirs := [] }
+    (run cfg 100 (initial 0 [0, 0] []) {}).map (fun st => (st.entered, st.reported)) =
+      some ([0, 1, 0, 1], [1, 1]) := by decide
+
+/-- in-memory contents are processed after the `-include`d headers and before the main file; with
+    no header on disk the first content is the main file and the others precede it -/
+theorem includes_order_example :
+    let cfg : Cfg := { files := [⟨0, .none, [.incl false 2]⟩, ⟨0, .none, [.incl false 3]⟩, ⟨0, .none, []⟩, ⟨0, .none, []⟩, ⟨0, .none, []⟩],
+                       fs := [(0, 2, 2), (0, 3, 3), (0, 4, 4)], quoteDirs := [], iDirs := [], sysDirs := [] }
+    (run cfg 100 (initial 0 [0, 1] [[.incl false 4]]) {}).map (fun st => st.reported) = some [2, 4, 3] ∧
+    (run cfg 100 (initial 0 [] [[.incl false 2], [.incl false 3]]) {}).map (fun st => st.reported) = some [3, 2] := by
+  decide
+
 /-! # callbacks -/
 
 theorem flatten_map_singleton {α β : Type} (f : α → β) (l : List α) :
